@@ -56,7 +56,7 @@ CHECKS = {
             "DESIGN.md §4 C09"),
     "C16": ("exploration",
             "runtime round-trip monitor: witness_to_string then parse_witness(es), field-by-field comparison with the harness-side description",
-            "Generated complete witnesses (bit-vector and array states, several recorded entries per array, wide values, multi-witness streams) are printed and read back; failed properties, names, values and array contents at every recorded index must be equal; streams must come back one by one for every limit. Held on the witnesses executed.",
+            "Generated complete witnesses (bit-vector and array states, several recorded entries per array, wide values, multi-witness streams) are printed and read back; failed properties, names, values and array contents at every recorded index must be equal; streams must come back one by one for every limit. Held on the witnesses executed. A third of the witnesses is also printed with print_witness into a sink that accepts 1-9 bytes per write call; limits beyond the number written (incl. usize::MAX) must return all witnesses.",
             "Bit-vector inputs only (array inputs are documented as unsupported by the printer); array index width <= 64.",
             "DESIGN.md §4 C16"),
     "C05": ("exploration",
@@ -76,7 +76,7 @@ CHECKS = {
             "DESIGN.md §4 C02"),
     "C03": ("exploration",
             "runtime monitor: every Fail(witness) of bmc replayed in the reference simulator and in patronus' interpreter, under randomised solver models",
-            "Each failing generated system is solved 8 times with different solver profiles, seeds, model diversification and value spellings; every witness is validated field by field against the transition-system semantics (init, constraints, bad at the last step, exact failed list, names, completeness) and replayed differentially in patronus::sim::Interpreter. Held on the witnesses executed. Systems without a reachable bad state get one bounded run as well: a witness reported there cannot be genuine and is validated too.",
+            "Each failing generated system is solved 8 times with different solver profiles, seeds, model diversification and value spellings; every witness is validated field by field against the transition-system semantics (init, constraints, bad at the last step, exact failed list, names, completeness) and replayed differentially in patronus::sim::Interpreter. Held on the witnesses executed. Systems without a reachable bad state get one bounded run as well: a witness reported there cannot be genuine and is validated too. A mode with 65-200 bit values (verdict Fail by construction) replays witnesses whose values the solver prints in binary or hex.",
             "Model variety comes from z3 seeds + explicit diversification in the reference solver.",
             "DESIGN.md §4 C03"),
     "C04": ("exploration",
@@ -91,7 +91,7 @@ CHECKS = {
             "DESIGN.md §4 C10"),
     "C15": ("fault_enumeration",
             "fault injection at every response-bearing point of recorded BMC / PDR / SolverContext conversations x 14 fault kinds, each run in a child process with a /proc-based hang observer",
-            "For each job the fault-free conversation is measured, then every (position, fault kind) pair is replayed in a child process with the fault armed inside the reference solver; outcomes are classified: verdict despite fault, panic, crash, mangled or misattributed error message, hang (solver gone or cpu burning past 1000x the fault-free time). Exhaustive over positions x kinds for the jobs executed. Three more fault kinds hit commands that bear no response (error and carry on, error and die, die), incl. early in >24 kB runs of such commands on a shipped design with the solver pipe shrunk to one page; and every satisfiability query of BMC/PDR jobs is answered Unknown in turn through an implementation of the public SolverContext trait (a definite verdict must then be the fault-free one, BMC failure depth included, and PDR frame traces must stay sound).",
+            "For each job the fault-free conversation is measured, then every (position, fault kind) pair is replayed in a child process with the fault armed inside the reference solver; outcomes are classified: verdict despite fault, panic, crash, mangled or misattributed error message, hang (solver gone or cpu burning past 1000x the fault-free time). Exhaustive over positions x kinds for the jobs executed. Three more fault kinds hit commands that bear no response (error and carry on, error and die, die), incl. early in >24 kB runs of such commands on a shipped design with the solver pipe shrunk to one page; and every satisfiability query of BMC/PDR jobs is answered Unknown in turn through an implementation of the public SolverContext trait (a definite verdict must then be the fault-free one, BMC failure depth included, and PDR frame traces must stay sound). A client and a solver that both sit in read() past the budget count as a hang.",
             "Jobs are deterministic so that positions found in the fault-free run are hit again; 8 (thorough: 96) jobs.",
             "DESIGN.md §4 C15"),
     "C19": ("exploration",
